@@ -712,7 +712,7 @@ def c15_episodes(seed, scale=1):
     tl = rotate_tails(r)
     eps = []
     for v in vecs:
-        for mode in ("full", "eps", "mmap"):
+        for mode in ("full", "eps", "mmap", "eps8"):
             menu = stack_menu(r)
             r.shuffle(menu)
             for i in range(0, len(menu), 5):
@@ -720,7 +720,7 @@ def c15_episodes(seed, scale=1):
                 for st in menu[i:i + 5]:
                     ops += [{"op": "build", "kind": st}, {"op": "reload", "mode": mode}]
                     ops += battery(v, r, {"rank", "select", "mem"}, small_limit=130)
-                    ops.append({"op": "reload", "mode": r.choice(["full", "eps", "mmap"])})
+                    ops.append({"op": "reload", "mode": r.choice(["full", "eps", "mmap", "eps8"])})
                     if mode == "full":     # a fully deserialized copy can be saved and loaded again
                         ops += battery(v, r, {"rank", "select"}, small_limit=40)
                 eps.append({"fam": "ranksel", "src": "reload", "ops": ops})
